@@ -4,6 +4,7 @@ from .. import gen as G
 from .. import streams as S
 from .. import dstream as D
 from .. import bitstream as BS
+from .. import bitstream as BS
 
 def schedule_line(f, limit, cuts, free_after=()):
     """ops: write piece, drain, [free] ... ; final extra drain"""
@@ -81,6 +82,9 @@ def run(ctx):
         # one byte at a time
         if nb <= 700:
             add(f, rng.choice([5, 100000]), list(range(1, nb)), tuple(range(0, nb, 9)))
+    # layer B: BitWords::extend at every alignment / truncate_left, through the guarded hooks, vs the Lean word-level
+    # model (for which extend_spec / truncateLeft_spec prove that it is bit-list append / drop of 64k bits)
+    BS.run(ctx, BS.words_lines(rng, 1500 if ctx.quick else 20000), "bits(words)")
     ans = C.harness(lines, timeout=2400)
     D.compare_dops(ctx, lines, ans, 'dops(split)', sample=[i for i in range(len(lines)) if i % (1 if not ctx.quick else 3) == 0])
     ref = {}
